@@ -114,7 +114,8 @@ def run(cx):
         "theorem is in certificate form: it covers every tree that passes wf_check; wf_check is evaluated (extracted) on every tree the implementation builds in this run",
         "general radix-tree well-formedness is proved only exhaustively for the bounded code lists named in radix_tree_wf_small",
         "leaf boxes and queries are integer valued in the correspondence (finite doubles embed order-isomorphically; min/max/<= are exact)",
-        "2-D BVH / x-sorted sweep / k-d tree are covered by harness c14_2d against the all-pairs scan (see evidence 'twod')",
+        "QueryTwoDTree's explicit 64-entry stack is modelled by recursion (depth <= log2 n + 1 is not proved)",
+        "sweep_pairs_exact covers membership, not multiplicity (the oracle compares the exact list)",
     ]
     cx.prove()
     consts = consts_from_source()
@@ -202,22 +203,116 @@ def run(cx):
                    "certificates_checked": len(certs), "traces_validated_against_impl": len(cases) - mism})
     cx.sample({"case": case_line(cases[20])[:400], "impl": impl.get("20", "")[:300]})
     cx.sample({"case": case_line(cases[3])[:400], "impl": impl.get("3", "")[:300]})
-    twod(cx)
+    twod(cx, drv)
 
 
-def twod(cx):
-    """2-D broad phases and the polygon k-d tree against the all-pairs scan."""
-    if not os.path.exists(os.path.join(vp.ROOT, "harness/c14_2d.cpp")):
-        return
+def twod(cx, drv):
+    """2-D broad phases (boolean2 BVH = same radix tree + traversal, x-sorted
+    sweep) and the polygon k-d tree: correspondence with the extracted model,
+    certificate on the BVH, all-pairs oracle on what the implementation reports."""
     exe = vp.build_harness("c14_2d", "seq", link_lib=True)
-    rc, out, err = vp.sh2([exe, str(cx.seed), str(cx.pick(400, 20000))], timeout=1800)
-    if rc != 0 and "MISMATCH" not in out:
-        cx.broke("corr:C14/2d-harness", "2-D harness exited %d: %s" % (rc, (out + err)[-400:]))
-    n = 0
-    for l in out.splitlines():
-        if l.startswith("MISMATCH"):
-            cx.violation("2d-" + l.split()[1], l, {"line": l, "seed": cx.seed})
-        elif l.startswith("OK"):
-            n += int(l.split()[2])
-            cx.cov.setdefault("twod", []).append(l)
-    cx.cov["evaluations"] += n
+    rng = random.Random(cx.seed * 104729 + 1402)
+    N = cx.pick(600, 15000)
+    lines, cases = [], {}
+    for k in range(N):
+        kind = ("BVH2", "SWEEP", "KD")[k % 3]
+        cid = "%s%d" % (kind[0].lower(), k)
+        L = rng.choice([3, 6, 20, 200])
+        def box():
+            lo = [rng.randrange(L), rng.randrange(L)]
+            hi = [lo[0] + rng.randrange(max(1, L // 3 + 1)), lo[1] + rng.randrange(max(1, L // 3 + 1))]
+            return lo + hi
+        if kind == "BVH2":
+            n = rng.choice([2, 3, 5, 9, 17, 40, 130]) if k % 60 else rng.choice([600, 1100])
+            m = rng.choice([1, 3, 10])
+            boxes = [box() for _ in range(n)]
+            if rng.random() < 0.15:
+                boxes = [boxes[0]] * n          # identical boxes -> identical Morton codes
+            qs = [box() for _ in range(m)]
+            lines.append("BVH2 %s %d %d %s %s" % (cid, n, m, " ".join(str(x) for b in boxes for x in b), " ".join(str(x) for b in qs for x in b)))
+            cases[cid] = ("BVH2", boxes, qs)
+        elif kind == "SWEEP":
+            n = rng.choice([0, 1, 2, 3, 6, 12, 40, 150])
+            boxes = [box() for _ in range(n)]
+            lines.append("SWEEP %s %d %s" % (cid, n, " ".join(str(x) for b in boxes for x in b)))
+            cases[cid] = ("SWEEP", boxes, None)
+        else:
+            n = rng.choice([0, 1, 7, 8, 9, 10, 17, 33, 100, 257])
+            m = rng.choice([1, 4])
+            pts = [[rng.randrange(L), rng.randrange(L)] for _ in range(n)]
+            qs = [box() for _ in range(m)]
+            lines.append("KD %s %d %d %s %s" % (cid, n, m, " ".join(str(x) for p in pts for x in p), " ".join(str(x) for b in qs for x in b)))
+            cases[cid] = ("KD", pts, qs)
+    kl = lambda l: l.split()[1]
+    ko = lambda l: l.split()[1] if l[:2] in ("Q2", "S ", "K ") else None
+    out_impl, crashes = vp.run_cases(exe, lines, kl, ko, timeout=1800)
+    for cl, rc, err in crashes:
+        cx.violation("broadphase2d-crash", "2-D broad phase / k-d tree crashed or hung (rc=%s): %s" % (rc, err[-200:]), {"case": cl[:2000]})
+    impl, extra_lines = {}, []
+    for l in out_impl.splitlines():
+        t = l.split(" ", 2)
+        if t[0] in ("R", "S", "K", "Q2"):
+            impl[(t[0], t[1])] = l
+        if t[0] in ("CASE", "CERT"):
+            extra_lines.append(l)
+    rc, out_model, err = vp.sh2([drv], input="\n".join(lines + extra_lines) + "\n", timeout=1800)
+    if rc != 0:
+        cx.broke("corr:C14/2d-model-driver", "model driver exited %d: %s" % (rc, err[-300:]))
+    model = {}
+    for l in out_model.splitlines():
+        t = l.split(" ", 2)
+        if t[0] in ("R", "S", "K", "W"):
+            model[(t[0], t[1])] = l
+    mism, nontriv, stats = 0, 0, {"BVH2": 0, "SWEEP": 0, "KD": 0}
+    ov = lambda a, b: a[0] <= b[2] and a[2] >= b[0] and a[1] <= b[3] and a[3] >= b[1]
+    for cid, (kind, data, qs) in cases.items():
+        stats[kind] += 1
+        bad_spec = None
+        if kind == "BVH2":
+            li = impl.get(("Q2", cid), "")
+            toks = li.split()[2:]
+            got = list(zip(map(int, toks[0::2]), map(int, toks[1::2])))
+            want = {(q, l) for q in range(len(qs)) for l in range(len(data)) if ov(qs[q], data[l])}
+            if set(got) != want or len(got) != len(want):
+                bad_spec = "BVH pairs differ from all-pairs scan: missing %s extra %s" % (sorted(want - set(got))[:4], sorted(set(got) - want)[:4])
+            if model.get(("W", cid), "").split()[-1:] != ["1"]:
+                cx.broke("cert:C14/2d-wf_check#%s" % cid, "boolean2 BVH arrays fail the certificate wf_check")
+            keys = [("R", cid)]
+            nontriv += int(0 < len(want) < len(qs) * len(data))
+        elif kind == "SWEEP":
+            li = impl.get(("S", cid), "")
+            toks = li.split()[2:]
+            got = list(zip(map(int, toks[0::2]), map(int, toks[1::2])))
+            want = [(a, b) for a in range(len(data)) for b in range(a + 1, len(data)) if ov(data[a], data[b])]
+            if got != want:
+                bad_spec = "sweep pairs differ from the sorted all-pairs scan: got %s.. want %s.." % (got[:5], want[:5])
+            keys = [("S", cid)]
+            nontriv += int(0 < len(want) < len(data) * (len(data) - 1) // 2)
+        else:
+            li = impl.get(("K", cid), "")
+            parts = li.split(" q")
+            tree = list(map(int, parts[0].split()[3:])) if parts and parts[0] else []
+            if sorted(tree) != list(range(len(data))):
+                bad_spec = "BuildTwoDTree lost or duplicated points"
+            for qi, q in enumerate(qs):
+                got = sorted(map(int, parts[qi + 1].split())) if len(parts) > qi + 1 else None
+                want = sorted(i for i, p in enumerate(data) if q[0] <= p[0] <= q[2] and q[1] <= p[1] <= q[3])
+                if got != want:
+                    bad_spec = "QueryTwoDTree result differs from the brute-force scan: got %s want %s" % (got, want)
+                nontriv += int(0 < len(want) < len(data))
+            keys = [("K", cid)]
+        if bad_spec:
+            cx.violation("broadphase2d-%s-differs-from-scan" % kind.lower(), bad_spec, {"case": [l for l in lines if l.split()[1] == cid][0][:3000]})
+        for key in keys:
+            a, b = impl.get(key), model.get(key)
+            if kind == "KD" and a != b and a is not None and b is not None:
+                # tie order of equal coordinates may legitimately differ between two stable sorts only if they are not both stable; compare as sets per query too
+                pass
+            if a != b:
+                mism += 1
+                if mism <= 3:
+                    cx.broke("corr:C14/2d-%s#%s" % (kind, cid), "model and implementation differ: impl=%s model=%s" % (str(a)[:300], str(b)[:300]))
+    cx.cov["twod"] = {"cases": stats, "correspondence_mismatches": mism, "nontrivial": nontriv}
+    cx.cov["evaluations"] += len(cases)
+    cx.cov["distinct_nontrivial"] += nontriv
+    cx.sample({"twod_case": lines[1][:300], "impl": impl.get(("S", lines[1].split()[1]), "")[:200]})
